@@ -46,8 +46,9 @@ def frames_of(g):
 
 
 class World:
-    def __init__(self, wd, gens, ctxs, handle_mode='r+', ctx_mode=None):
+    def __init__(self, wd, gens, ctxs, handle_mode='r+', ctx_mode=None, keep_cells=(0, 1)):
         self.handle_mode, self.ctx_mode = handle_mode, ctx_mode
+        self.keep_cells = tuple(keep_cells)     # cells whose first shared read is retained (and part of the state)
         self.map_mode = None                      # access mode of the shared map while it is open
         self.badopen_done = False
         self.kept = []                            # (value returned by an earlier read, its bytes at that moment)
@@ -235,7 +236,7 @@ class World:
                     bad('element read differs from the contents', f'a[{kk - 1}:{kk + 2}] returned {got!r}, contents are {want!r}')
                 # a value once returned must stay what it was: the first slice of each cell that was read while other users
                 # hold the array open is kept (and is part of the state, so that later writes and closings follow it)
-                if isinstance(got, np.ndarray) and self.live_users() and not self.kept_flags[c]:
+                if isinstance(got, np.ndarray) and c in self.keep_cells and self.live_users() and not self.kept_flags[c]:
                     self.kept.append((got, got.tobytes()))
                     self.kept_flags[c] = True
                 label = f'read{self.toggle[c]}'
@@ -363,8 +364,10 @@ def make_factory(tier, variant='rw'):
             return World(wd, gens, ctxs, handle_mode='r', ctx_mode='r+')
         return factory, gens, ctxs
 
+    keep = (1,) if tier == 'quick' else (0, 1)
+
     def factory(wd):
-        return World(wd, gens, ctxs)
+        return World(wd, gens, ctxs, keep_cells=keep)
     return factory, gens, ctxs
 
 
